@@ -17,29 +17,6 @@ import sys
 sys.path.insert(0, os.path.dirname(os.path.dirname(os.path.abspath(__file__))))
 
 
-def _patch_mapper():
-    """harness/core_stream.Mapper identifies the post-commit `_run_action` closure through a captured engine object;
-    since /repo fix fdb9cc00 the closure captures the action execution ID instead (`action_ex_id`).  Until
-    core_stream.py (not my file) follows, the lookup is extended here (falls back to the original code)."""
-    from harness import core_stream as cs
-    if getattr(cs.Mapper, '_live_patched', False):
-        return
-    orig = cs.Mapper.op_item
-
-    def op_item(self, op):
-        func = op[0]
-        if getattr(func, '__name__', '') == '_run_action' and getattr(func, '__closure__', None):
-            cells = dict(zip(func.__code__.co_freevars, [c.cell_contents for c in func.__closure__]))
-            if isinstance(cells.get('action_ex_id'), str):
-                r = orig(self, op)
-                if r is not None:
-                    return r
-                return dict(self.action_tid(cells['action_ex_id']) or {'t': None}, k='postRunAction')
-        return orig(self, op)
-    cs.Mapper.op_item = op_item
-    cs.Mapper._live_patched = True
-
-
 def parse_event(s):
     p = s.split(':')
     k = p[0]
@@ -80,7 +57,6 @@ def replay(prog, events, seed=1, compare=True, drv=None, drain=False):
     from harness import core_stream as cs
     from harness import wfgen
     from harness.engine_driver import EngineWorld
-    _patch_mapper()
     mo = model_run(prog, events, drv) if compare else None
     w = EngineWorld(seed=seed)
     w.create_workflows(wfgen.render_yaml(prog))
